@@ -117,6 +117,10 @@ func (mt *multiSwarm) Tell(ctx context.Context, dst Addr, data p2p.IOVec) error 
 	if !ok {
 		return ErrTransportNotExist
 	}
+	// MTU() is the smallest MTU of all transports; it is enforced for every transport
+	if p2p.VecSize(data) > mt.MTU() {
+		return p2p.ErrMTUExceeded
+	}
 	return t.Tell(ctx, dst.Addr, data)
 }
 
@@ -205,7 +209,21 @@ func (ma *multiAsker) Ask(ctx context.Context, resp []byte, dst Addr, data p2p.I
 	if !ok {
 		return 0, ErrTransportNotExist
 	}
+	if p2p.VecSize(data) > ma.mtu() {
+		return 0, p2p.ErrMTUExceeded
+	}
 	return t.Ask(ctx, resp, dst.Addr, data)
+}
+
+// mtu is the smallest MTU of all transports, as reported by the swarm's MTU()
+func (ma *multiAsker) mtu() int {
+	ret := math.MaxInt
+	for _, s := range ma.swarms {
+		if m := s.MTU(); m < ret {
+			ret = m
+		}
+	}
+	return ret
 }
 
 func (ma *multiAsker) ServeAsk(ctx context.Context, fn func(context.Context, []byte, p2p.Message[Addr]) int) error {
